@@ -1,2 +1,91 @@
--- line-protocol model driver for C06 (stub)
-def main : IO Unit := IO.println "stub C06"
+/- Line-protocol model driver for C06 (channels / event loop).
+    prog <cfg> <limits> <rng> <ops of fiber 0> / <ops of fiber 1> / ...   -> "<verdict> <event log>"
+        <cfg>     "gen" (configuration extracted from the current ev.c) or five 0/1 digits
+                  pushBlocksStrict choiceReadyStrict choiceGiveSeesReader popSkipsStaleWriter closeChecksSched
+        <limits>  comma separated channel capacities, "-" for none;  <rng> comma separated u32 stream, "-" for none
+        ops       g<c>:<x> give | t<c> take | c<c> close | y (ev/sleep 0) | s:<cl>,<cl>.. select | r:<cl>,.. rselect
+                  clause  t<c> | g<c>:<x>
+    Q <ops>                    p<n> push | h<n> push_head | o pop   -> per op "rc/popped/cap/head/tail/count[contents]"
+-/
+import Driver.Util
+import JanetModel.Ev.Exec
+import JanetModel.Ev.Queue
+import JanetModel.Ev.Current
+open Driver JanetModel.Ev
+
+def parseNats (s : String) : List Nat :=
+  if s = "-" then [] else (s.splitOn ",").filterMap String.toNat?
+
+def parseClause (s : String) : Option Clause :=
+  match s.toList with
+  | 't' :: r => (String.ofList r).toNat?.map Clause.take
+  | 'g' :: r =>
+    match (String.ofList r).splitOn ":" with
+    | [c, x] => match c.toNat?, x.toNat? with
+      | some c, some x => some (.give c x)
+      | _, _ => none
+    | _ => none
+  | _ => none
+
+def parseOp (s : String) : Option Op :=
+  match s.toList with
+  | ['y'] => some .sleep0
+  | 't' :: r => (String.ofList r).toNat?.map Op.take
+  | 'c' :: r => (String.ofList r).toNat?.map Op.close
+  | 'g' :: _ => match parseClause s with
+    | some (.give c x) => some (.give c x)
+    | _ => none
+  | 's' :: ':' :: r => some (.select (((String.ofList r).splitOn ",").filterMap parseClause))
+  | 'r' :: ':' :: r => some (.rselect (((String.ofList r).splitOn ",").filterMap parseClause))
+  | _ => none
+
+def splitFibers (toks : List String) : List (List String) :=
+  let rec go : List String → List String → List (List String) → List (List String)
+    | [], cur, acc => (cur.reverse :: acc).reverse
+    | "/" :: rest, cur, acc => go rest [] (cur.reverse :: acc)
+    | t :: rest, cur, acc => go rest (t :: cur) acc
+  go toks [] []
+
+def parseCfg (s : String) : Option Cfg :=
+  if s = "gen" then some currentCfg
+  else match s.toList.map (· == '1') with
+    | [a, b, c, d, e] => some ⟨a, b, c, d, e⟩
+    | _ => none
+
+def showQ (rc : Nat) (popped : Int) (q : RingQ Nat) : String :=
+  s!"{rc}/{popped}/{q.cap}/{q.head}/{q.tail}/{q.count}[{commaSep (q.toList.map toString)}]"
+
+def runQ (toks : List String) : String :=
+  let rec go : List String → RingQ Nat → List String → List String
+    | [], _, acc => acc.reverse
+    | t :: rest, q, acc =>
+      match t.toList with
+      | 'p' :: r =>
+        match RingQ.push maxQCapacity q ((String.ofList r).toNat?.getD 0) with
+        | some q' => go rest q' (showQ 0 (-1) q' :: acc)
+        | none => go rest q (showQ 1 (-1) q :: acc)
+      | 'h' :: r =>
+        match RingQ.pushHead maxQCapacity q ((String.ofList r).toNat?.getD 0) with
+        | some q' => go rest q' (showQ 0 (-1) q' :: acc)
+        | none => go rest q (showQ 1 (-1) q :: acc)
+      | ['o'] =>
+        match RingQ.pop q with
+        | some (x, q') => go rest q' (showQ 0 x q' :: acc)
+        | none => go rest q (showQ 1 (-1) q :: acc)
+      | _ => go rest q acc
+  String.intercalate " " (go toks (RingQ.init 0) [])
+
+def stepLine (_ : Unit) (toks : List String) : Unit × String :=
+  match toks with
+  | "prog" :: cfg :: limits :: rng :: rest =>
+    match parseCfg cfg with
+    | none => ((), "bad-cfg")
+    | some cfg =>
+      let fibs := (splitFibers rest).map (fun ts => ts.filterMap parseOp)
+      let nbad : Nat := ((splitFibers rest).map (fun ts => (ts.filter (fun t => (parseOp t).isNone)).length)).foldl (· + ·) 0
+      if nbad > 0 then ((), "bad-op")
+      else ((), Prog.render cfg { limits := parseNats limits, fibers := fibs, rng := parseNats rng })
+  | "Q" :: ops => ((), runQ ops)
+  | _ => ((), "bad-op")
+
+def main : IO Unit := runLoop () stepLine
